@@ -211,6 +211,14 @@ def run_unit(unit, twin=None):
     res["wall_s"] = r["wall_s"]
     d = r["json"]
     extracted = {it["emitted_as"]: it for it in meta["items"] if it["kind"] == "fn"}
+
+    def unannotated(fn_name):
+        """closures without a contract inside the extracted function / the statement-range wrapper of that name"""
+        n = 0
+        for it in meta["items"]:
+            if (it["kind"] == "fn" and it["emitted_as"] == fn_name) or (it["kind"] == "stmts" and it.get("wrapper") == fn_name):
+                n = max(n, it.get("unannotated_closures", 0))
+        return n
     if not d or "verification-results" not in d:
         res["obligations"].append({"id": "verus:%s" % unit, "engine": "verus", "strength": "unbounded",
                                    "status": "undecided", "reason": "verus gave no result: " + r["stderr"][-400:]})
@@ -259,6 +267,13 @@ def run_unit(unit, twin=None):
                     # too). It is not reported: the obligation is discharged by the isolated run.
                     ob["status"] = "verified"
                     ob["note"] = "failed in the batch run, verified when run alone (--verify-function): batch artefact, not reported"
+                elif definite and unannotated(name):
+                    # The body contains a closure the unit gives no contract for (typically introduced by an edit: `.map(|x| ..)`):
+                    # Verus knows nothing about what such a closure returns, so a failed proof cannot be told from a missing
+                    # specification. Undecided, never an alarm (a behaviour-preserving refactor of find_link into
+                    # `search_kmer(..).map(|idx| ..)` was reported as a violation before this rule).
+                    ob["status"] = "undecided"
+                    ob["reason"] = "proof failed, but the body contains %d closure(s) without a contract in this unit: cannot be told from a missing specification; %s" % (unannotated(name), (errs[0].splitlines()[0] if errs else "")[:160])
                 elif definite:
                     ob["status"] = "failed"
                     ob["failed_checks"] = [{"msg": e.splitlines()[0] + " @ " + (re.search(r"--> (\S+)", e).group(1).split("/")[-1] if re.search(r"--> \S+", e) else ""),
